@@ -195,6 +195,11 @@ func (g *BadQ) Write(h *rtp.Header, p []byte, _ interceptor.Attributes) (int, er
 	if len(p) == 0 {
 		return 0, nil
 	}
+	if h.Padding {
+		if w, ok := g.w[h.SSRC]; ok {
+			return w.Write(h, p, nil) // bypasses the queue: overtakes queued packets
+		}
+	}
 	hc := h.Clone()
 	pc := append([]byte(nil), p...)
 	g.mu.Lock()
